@@ -237,14 +237,22 @@ def c09_or_other(multi: bool, has_other: bool, c0: int) -> bool:
     return len(inputs) == 1
 
 
-def c09_sources(kind: int, s0: int, s1: int) -> bool:
+STEMS = ["ab", "a_b", "A1", "x-y", "data"]
+
+
+def c09_sources(kind: int, si: int, s0: int, s1: int) -> bool:
     """
-    vpre: (97 <= s0 <= 122 or 65 <= s0 <= 90 or s0 == 95)
-    vpre: (97 <= s1 <= 122 or 65 <= s1 <= 90 or s1 == 95 or 48 <= s1 <= 57)
+    vpre: 0 <= si <= 4
+    vpre: 97 <= s0 <= 122 and 97 <= s1 <= 122
     vpost: _ == True
     """
-    stem = S(s0, s1)
-    rows = [{"type": "text", "name": "q0", "label": "Q0"}]
+    # The stem is chosen by a symbolic index from a menu: the type cell is parsed by RE_SELECT
+    # (CrossHair's regex engine mis-handles its nested alternation on a symbolic tail: a
+    # non-reproducing KeyError, caught by the replay) and instance ids are stored as dict keys
+    # in Survey._generate_instances (hashing realises a symbolic id).
+    stem = STEMS[si]
+    lab = S(s0, s1)
+    rows = [{"type": "text", "name": "qq0", "label": lab}]
     if kind == 0:
         rows.append({"type": "select_one_from_file " + stem + ".csv", "name": "q1", "label": "Q1"})
         uri = "jr://file-csv/" + stem + ".csv"
@@ -293,7 +301,7 @@ specialise(
     timeout=400,
     kernel=K,
     shims=("S1", "S2", "S3", "S4"),
-    symbolic="external file stem of 2 symbolic characters over [A-Za-z_][A-Za-z0-9_]",
+    symbolic="external file stem chosen by a symbolic index from a 5-name menu (ids are dict keys / regex-parsed: concrete), 2-letter label tracer on a neighbouring row",
     bounds="source kind fixed per instance: select_one_from_file csv/xml, select_multiple_from_file geojson, xml-external, csv-external, pulldata, same file twice, same id with different URI",
     weight=80,
 )
